@@ -30,6 +30,7 @@ type osCase struct {
 	command    string   // none | ok | fails | hangs
 	tree       []string // member names: parent [, child [, grandchild]]
 	ignores    map[string]bool
+	repeat     bool // binary triggers: the OS signal is sent a second time while the shutdown is still in progress
 }
 
 var trapSigs = []int{1, 2, 3, 10, 12, 14, 15, 31}
@@ -146,6 +147,10 @@ func runOsCase(rec *recWriter, dir string, pcbin string, c osCase) {
 		sig := map[string]syscall.Signal{"SIGTERM": syscall.SIGTERM, "SIGINT": syscall.SIGINT, "SIGHUP": syscall.SIGHUP}[c.trigger]
 		stopFn = func() bool {
 			_ = pc.Process.Signal(sig)
+			if c.repeat {
+				time.Sleep(300 * time.Millisecond)
+				_ = pc.Process.Signal(sig)
+			}
 			select {
 			case <-exited:
 				return true
@@ -266,7 +271,7 @@ func runOsCase(rec *recWriter, dir string, pcbin string, c osCase) {
 	}
 	rec.put(map[string]any{"kind": "osstop", "id": c.id, "trigger": c.trigger, "signal": c.signal, "eff": effSignal(c.signal),
 		"parentOnly": c.parentOnly, "timeout": c.timeout, "command": c.command, "members": members, "tStop": tStop, "tReturn": tReturn,
-		"returned": returned, "cmd": cmdRec, "wd": wd, "procName": "victim"})
+		"returned": returned, "cmd": cmdRec, "wd": wd, "procName": "victim", "repeat": c.repeat})
 	// clean up whatever the configuration could not reach
 	cleanup()
 	for _, pid := range pids {
@@ -323,6 +328,7 @@ func OsstopMain(args []string) {
 				c.timeout = 1 // otherwise nothing can ever stop it: outside what any supervisor can do
 			}
 		}
+		c.repeat = strings.HasPrefix(c.trigger, "SIG") && r.Intn(2) == 0
 		if r.Intn(4) == 0 {
 			c.command = []string{"ok", "fails", "hangs"}[r.Intn(3)]
 			if c.command == "hangs" {
